@@ -170,6 +170,8 @@ RecStmts == {SAssign(F("c"), Bin("+", Fld("a"), EInt(1))),                    \*
              SAssign(F("s"), Oos("sum")),                                      \* absent on the first record unless set: skipped
              SFilter(Bin(">", Fld("a"), EInt(1))),
              SPattern(Bin("==", NRx, EInt(2)), <<SAssign(F("z"), EInt(1))>>),
+             SPattern(Bin("==", NRx, EInt(2)), <<SFilter(EBool(FALSE))>>),      \* excludes the second record only
+             SPattern(Bin("==", Fld("a"), EInt(1)), <<SFilter(EBool(FALSE))>>),  \* ... the first record only
              SAssign(F("n"), Fld("nosuch")),                                   \* absent: no assignment
              SDecl("var", "t", Fld("a")), SAssign(F("t"), Lc("t"))}
 RecEnds == {<<>>, <<SEmit("sum", <<>>)>>, <<SEmit("cnt", <<"b">>)>>, <<SEmit("tot", <<"b">>), SEmit("sum", <<>>)>>, <<SPrint(Oos("sum"))>>}
@@ -190,11 +192,23 @@ IdxStmts == {SPrint(Idx(X, <<EInt(1)>>)), SPrint(Idx(X, <<EInt(3)>>)), SPrint(Id
              SAssign(Lhs("local", "m", <<EInt(1), EStr("k")>>), EInt(3)), SAssign(Lhs("local", "m", <<EStr("a")>>), X),
              SAssign(O("a", <<EInt(1), EStr("b")>>), EInt(2)), SAssign(O("a", <<EInt(2)>>), EInt(4)), SUnset(O("a", <<EInt(1)>>)),
              SPrint(Bif("length", <<X>>)), SPrint(Bif("haskey", <<X, EInt(-3)>>)), SPrint(Bif("haskey", <<X, EInt(4)>>)),
-             SPrint(Idx(Lc("m"), <<EStr("nosuch")>>)), SPrint(Bif("is_absent", <<Idx(Oos("a"), <<EInt(9)>>)>>))}
+             SPrint(Idx(Lc("m"), <<EStr("nosuch")>>)), SPrint(Bif("is_absent", <<Idx(Oos("a"), <<EInt(9)>>)>>)),
+             \* values are copied by assignment: an indexed assignment to the copy leaves the source alone, also when
+             \* the copy held a scalar (which the indexed assignment replaces by a collection) and for auto-extended slots
+             SLoc("s", EInt(3)), SLoc("t", Lc("s")), SAssign(Lhs("local", "t", <<EInt(1)>>), EInt(5)), SPrint(Bif("json_stringify", <<Lc("s")>>)),
+             SPrint(Bif("json_stringify", <<Lc("t")>>)), SLoc("t", X), SAssign(Lhs("local", "t", <<EInt(2)>>), EInt(0)),
+             \* (a string key: what an integer key makes of a slot that does not exist yet is documented for variables only)
+             SAssign(Lhs("local", "x", <<EInt(4), EStr("k")>>), EInt(7)), SAssign(Lhs("local", "x", <<EInt(5), EStr("j")>>), EInt(8))}
+\* an indexed assignment INTO an element that exists and is not a collection (a null gap, a number) is documented nowhere
+Deep4 == SAssign(Lhs("local", "x", <<EInt(4), EStr("k")>>), EInt(7))
+Deep5 == SAssign(Lhs("local", "x", <<EInt(5), EStr("j")>>), EInt(8))
+Set4 == SAssign(Lhs("local", "x", <<EInt(4)>>), EInt(7))
+Set6 == SAssign(Lhs("local", "x", <<EInt(6)>>), EInt(6))
+Undocumented(body) == Len(body) = 2 /\ ((body[2] = Deep4 /\ body[1] \in {Set4, Set6, Deep5}) \/ (body[2] = Deep5 /\ body[1] = Set6))
 IndexCases ==
   {Case(EndOnly(<<>>, <<SDecl("var", "x", ArrLit(<<EInt(10), EInt(20), EInt(30)>>)), SDecl("map", "m", MapLit(<<>>))>> \o body
                       \o <<SPrint(Bif("json_stringify", <<X>>)), SPrint(Bif("json_stringify", <<Lc("m")>>)), SPrint(Bif("json_stringify", <<Oos("a")>>))>>), <<>>) :
-       body \in Seqs(IdxStmts, 1, 2)}
+       body \in {b \in Seqs(IdxStmts, 1, 2) : ~Undocumented(b)}}
 
 (***************************************************************************)
 (* "expr": operator precedence and associativity through the real parser    *)
